@@ -69,7 +69,14 @@ class Rule :
 
             if hasattr(self, 'arg_paths'):
                 for idx, val in self.arg_paths:
-                    if idx >= len(body) or not body[idx].startswith(val):
+                    if idx >= len(body) or not isinstance(body[idx], str):
+                        return
+                    arg = body[idx]
+                    if not (
+                        arg == val
+                        or (val.endswith('/') and arg.startswith(val))
+                        or (arg.endswith('/') and val.startswith(arg))
+                    ):
                         return
 
             # XXX arg0namespace -- Not quite sure how this one works
